@@ -21,7 +21,7 @@ LEVEL = 'exploration'
 RULE = ('a case is one schedule for one adapter: (adapter in {Axi2Reg, Reg2Axi}, register width W in {8,32,64} plus {12,33} for the '
         'ceil in the KEEP mask and {65,96,128,200,256,512}, stream width in {W rounded up to bytes, 64, 128, 256, 512} (for W>64: 128/256/512, Axi2Reg also with the register wider than the stream word), 200 (quick) / 400-1000 (thorough) cycles of '
         'ap_start/ap_reset/ap_done-wish/load_outs/peer VALID or READY/data, and a build history: adapter alone before the first getSimulator(), '
-        'or (30%) added directly / one / two levels down to a system whose simulator already exists and has run, then getSimulator() again); schedules are concatenations of phases (idle, '
+        'or (30%) added directly / one / two levels down to a system whose simulator already exists and has run, then getSimulator() again); and a driver: bench around clk(1) with a passive Simulator listener that applies the per-cycle clauses to what a listener sees, or (30%) a listener that does all poking and judging from inside clk(n), n up to 40; plus one composition per index: 2-3 HWSystems with one adapter each, all inputs applied first, then every simulator clocked once, in same/reverse/rotating/random order; schedules are concatenations of phases (idle, '
         'back-to-back burst, back-pressure stall, control storm, load storm, random with per-schedule rates) so that bursts, stalls, '
         'load-while-pending and reset/done mid-transfer occur; ap_done is granted only under the environment assumption. Every cycle '
         'evaluates all clauses of the adapter (one evaluation per cycle). Non-trivial = the schedule contains back-pressure while '
@@ -90,7 +90,31 @@ def gen_schedule(rnd, dut, W, ncyc):
     if rnd.random() < 0.3:
         # incremental build: the adapter joins a system whose simulator already exists
         hist = dict(depth=rnd.choice([0, 1, 1, 2, 2]), warm=rnd.choice([0, 1, 3]), pre=rnd.random() < 0.6)
-    return dict(dut=dut, W=W, dw=dw, cycles=cyc[:ncyc], hist=hist)
+    # who drives and who looks: a bench around clk(1) with a passive Simulator listener, or a listener that does everything
+    # from inside clk(n) calls with n up to 40
+    drive = 'listener' if rnd.random() < 0.3 else 'bench'
+    chunks = []
+    if drive == 'listener':
+        left = ncyc
+        while left > 0:
+            c = min(left, rnd.choice([1, 2, 3, 5, 8, 13, rnd.randint(2, 40)]))
+            chunks.append(c)
+            left -= c
+    return dict(dut=dut, W=W, dw=dw, cycles=cyc[:ncyc], hist=hist, drive=drive, chunks=chunks)
+
+
+def gen_lockstep(rnd, ncyc):
+    """Composition: 2-3 independent HWSystems, each with one adapter and its own schedule, stepped together."""
+    k = rnd.choice([2, 2, 3])
+    subs = []
+    for _ in range(k):
+        sub = gen_schedule(rnd, rnd.choice(['axi2reg', 'reg2axi']), rnd.choice(WIDTHS), ncyc)
+        sub['drive'], sub['chunks'] = 'lockstep', []
+        subs.append(sub)
+    orders = rnd.choice(['same', 'reverse', 'rotate', 'random'])
+    if orders == 'random':
+        orders = [rnd.randrange(6) for _ in range(ncyc)]
+    return dict(lockstep=subs, orders=orders)
 
 
 # --------------------------------------------------------------------------- the two monitors
@@ -147,49 +171,76 @@ def _build(dut, W, dw, hist=None):
     return sim, s, st
 
 
-def run_axi2reg(plan, ev):
-    """Returns the list of inputs actually applied (ap_done after gating). Raises Bad at the first violated clause."""
-    W = plan['W']
-    sim, s, st = _build('axi2reg', W, plan['dw'], plan.get('hist'))
-    mW = (1 << W) - 1
-    m_active = m_loaded = m_q = 0
-    completed = 0
-    applied = []
-    prev_beat = False
-    for t, (start, reset, wish, _load, valid, data) in enumerate(plan['cycles']):
+class A2R:
+    """Axi2Reg under its shadow model.  begin(t): grant ap_done, poke the inputs of cycle t; look(): judge what is visible
+    between two edges; step(t): advance the shadow over edge t.  The drivers below decide who calls what, and from where."""
+    dut = 'axi2reg'
+
+    def __init__(self, plan, ev):
+        self.plan, self.ev = plan, ev
+        self.W = plan['W']
+        self.mW = (1 << self.W) - 1
+        self.sim, self.s, self.st = _build('axi2reg', self.W, plan['dw'], plan.get('hist'))
+        self.m_active = self.m_loaded = self.m_q = 0
+        self.completed = 0
+        self.applied = []
+        self.prev_beat = False
+        self.t = 0                      # the visible state is the one going into edge t
+
+    def begin(self, t):
+        start, reset, wish, _load, valid, data = self.plan['cycles'][t]
         # no beat can be pending across cycles on this adapter (READY == active, so an offered beat completes at once)
-        done = int(bool(wish) and completed > 0)
-        applied.append([start, reset, done, 0, valid, data])
+        done = int(bool(wish) and self.completed > 0)
+        self.applied.append([start, reset, done, 0, valid, data])
+        s, st = self.s, self.st
         s['start'].put(start); s['reset'].put(reset); s['done'].put(done)
         st.tvalid.put(valid); st.tdata.put(data)
-        sim.propagateAll()
-        active, loaded, q, tready = s['active'].get(), s['loaded'].get(), s['q'].get(), st.tready.get()
-        ctx = _ctx(start=start, reset=reset, done=done, valid=valid)
+
+    def look(self, when):
+        s = self.s
+        active, loaded, q, tready = s['active'].get(), s['loaded'].get(), s['q'].get(), self.st.tready.get()
         if tready != active:
-            raise Bad('tready_eq_active', dict(observed=tready, active=active), t, active, tready, 'tready=%d while active=%d' % (tready, active))
-        _shadow_cmp(t, applied, active, m_active, loaded, m_loaded, q, m_q)
+            raise Bad('tready_eq_active', dict(observed=tready, active=active, observer=when), self.t, active, tready,
+                      'tready=%d while active=%d (%s)' % (tready, active, when))
+        _shadow_cmp(self.t, self.applied, active, self.m_active, loaded, self.m_loaded, q, self.m_q, when)
+
+    def mid(self, t):
+        self.look('before the edge')
+
+    def end(self, t):
+        self.look('after the edge')
+
+    def observe(self):
+        self.ev['listener_observations'] += 1
+        self.look('listener')
+
+    def step(self, t):
+        ev = self.ev
+        start, reset, done, _l, valid, data = self.applied[t]
+        m_active, m_loaded, m_q = self.m_active, self.m_loaded, self.m_q
+        ctx = _ctx(start=start, reset=reset, done=done, valid=valid)
         beat = bool(valid and m_active)
         clear = bool(reset or done or (start and not m_active))
         ev['cycles'] += 1
         ev['beats'] += beat
-        ev['back_to_back_beats'] += bool(beat and prev_beat)
+        ev['back_to_back_beats'] += bool(beat and self.prev_beat)
         ev['peer_valid_while_not_ready'] += bool(valid and not m_active)
         ev['beat_overwrites_loaded'] += bool(beat and m_loaded and not clear)
         ev['beat_and_clear_same_cycle'] += bool(beat and clear)
         ev['reset_while_active'] += bool(reset and m_active)
         ev['done_while_active'] += bool(done and m_active)
         ev['done_granted'] += done
-        ev['done_refused'] += bool(wish and not done)
+        ev['done_refused'] += bool(self.plan['cycles'][t][2] and not done)
         ev['restart'] += bool(start and not m_active)
         ev['start_and_reset_same_cycle'] += bool(start and (reset or done))
         ev['ctx_' + ctx] = ev.get('ctx_' + ctx, 0) + 1
-        prev_beat = beat
+        self.prev_beat = beat
         # shadow step, from the statement: holds the most recent beat transferred while active, loaded set,
         # until reset, done or a restart clears them (a clear in the same cycle as a beat wins)
         if clear:
             n_loaded, n_q = 0, 0
         elif beat:
-            n_loaded, n_q = 1, data & mW
+            n_loaded, n_q = 1, data & self.mW
         else:
             n_loaded, n_q = m_loaded, m_q
         if reset or done:
@@ -199,17 +250,14 @@ def run_axi2reg(plan, ev):
         else:
             n_active = m_active
         if beat:
-            completed += 1
+            self.completed += 1
         if start or reset:
-            completed = 0
-        m_active, m_loaded, m_q = n_active, n_loaded, n_q
-        sim.clk(1)
-    active, loaded, q = s['active'].get(), s['loaded'].get(), s['q'].get()
-    _shadow_cmp(len(applied), applied, active, m_active, loaded, m_loaded, q, m_q)
-    return applied
+            self.completed = 0
+        self.m_active, self.m_loaded, self.m_q = n_active, n_loaded, n_q
+        self.t = t + 1
 
 
-def _shadow_cmp(t, cycles, active, m_active, loaded, m_loaded, q, m_q):
+def _shadow_cmp(t, cycles, active, m_active, loaded, m_loaded, q, m_q, when=''):
     """State visible before edge t must equal the shadow; the deciding inputs are those of cycle t-1."""
     if t > 0:
         start, reset, done, _l, valid, _d = cycles[t - 1]
@@ -218,53 +266,74 @@ def _shadow_cmp(t, cycles, active, m_active, loaded, m_loaded, q, m_q):
         ctx = 'power_up'
     if active != m_active:
         raise Bad('active_shadow', dict(expected=m_active, observed=active, ctx=ctx), t, m_active, active,
-                  'active=%d, shadow says %d (inputs of the deciding cycle: %s)' % (active, m_active, ctx))
+                  'active=%d, shadow says %d (inputs of the deciding cycle: %s; %s)' % (active, m_active, ctx, when))
     if loaded != m_loaded:
         raise Bad('loaded_shadow', dict(expected=m_loaded, observed=loaded, ctx=ctx), t, m_loaded, loaded,
-                  'loaded=%d, shadow says %d (inputs of the deciding cycle: %s)' % (loaded, m_loaded, ctx))
+                  'loaded=%d, shadow says %d (inputs of the deciding cycle: %s; %s)' % (loaded, m_loaded, ctx, when))
     if m_loaded and q != m_q:
         raise Bad('q_shadow', dict(ctx=ctx, relation='zero' if q == 0 else 'other'), t, m_q, q,
-                  'q=%#x while loaded, most recent beat transferred while active carried %#x (%s)' % (q, m_q, ctx))
+                  'q=%#x while loaded, most recent beat transferred while active carried %#x (%s; %s)' % (q, m_q, ctx, when))
 
 
-def run_reg2axi(plan, ev):
-    W, dw = plan['W'], plan['dw']
-    sim, s, st = _build('reg2axi', W, dw, plan.get('hist'))
-    mW = (1 << W) - 1
-    keep_mask = (1 << math.ceil(W / 8)) - 1          # documented: ceil(W/8) valid bytes in the lower bits
-    m_active = 0
-    latest = None            # reg_in sampled at the latest cycle with load_outs & active
-    completed = 0
-    applied = []
-    prev_accept = False
+class R2A:
+    """Reg2Axi under its clause set; same protocol as A2R."""
+    dut = 'reg2axi'
 
-    def comb(t, when):
+    def __init__(self, plan, ev):
+        self.plan, self.ev = plan, ev
+        self.W, dw = plan['W'], plan['dw']
+        self.sim, self.s, self.st = _build('reg2axi', self.W, dw, plan.get('hist'))
+        self.mW = (1 << self.W) - 1
+        self.keep_mask = (1 << math.ceil(self.W / 8)) - 1          # documented: ceil(W/8) valid bytes in the lower bits
+        self.m_active = 0
+        self.latest = None            # reg_in sampled at the latest cycle with load_outs & active
+        self.completed = 0
+        self.applied = []
+        self.prev_accept = False
+        self.t = 0
+        self.cur = None
+
+    def comb(self, when):
+        st, t = self.st, self.t
         tvalid, tlast, tkeep = st.tvalid.get(), st.tlast.get(), st.tkeep.get()
         if tlast != tvalid:
-            raise Bad('tlast_eq_tvalid', dict(tvalid=tvalid, tlast=tlast), t, tvalid, tlast, 'tlast=%d while tvalid=%d (%s)' % (tlast, tvalid, when))
-        if tkeep != keep_mask:
-            raise Bad('tkeep_mask', dict(relation='bits%+d' % (bin(tkeep).count('1') - bin(keep_mask).count('1'))), t, keep_mask, tkeep,
-                      'tkeep=%#x, documented mask for W=%d is %#x' % (tkeep, W, keep_mask))
+            raise Bad('tlast_eq_tvalid', dict(tvalid=tvalid, tlast=tlast, observer=when), t, tvalid, tlast, 'tlast=%d while tvalid=%d (%s)' % (tlast, tvalid, when))
+        if tkeep != self.keep_mask:
+            raise Bad('tkeep_mask', dict(relation='bits%+d' % (bin(tkeep).count('1') - bin(self.keep_mask).count('1'))), t, self.keep_mask, tkeep,
+                      'tkeep=%#x, documented mask for W=%d is %#x' % (tkeep, self.W, self.keep_mask))
         if tvalid:
-            td = st.tdata.get() & mW
-            if latest is None:
+            td = st.tdata.get() & self.mW
+            if self.latest is None:
                 raise Bad('tvalid_without_load', dict(), t, 0, 1, 'tvalid high although no load_outs pulse was ever given while active')
-            if td != latest:
-                raise Bad('tdata_latest_load', dict(relation='zero' if td == 0 else 'other'), t, latest, td,
-                          'tvalid high with tdata[%d:0]=%#x, latest load_outs&active sampled %#x (%s)' % (W - 1, td, latest, when))
+            if td != self.latest:
+                raise Bad('tdata_latest_load', dict(relation='zero' if td == 0 else 'other'), t, self.latest, td,
+                          'tvalid high with tdata[%d:0]=%#x, latest load_outs&active sampled %#x (%s)' % (self.W - 1, td, self.latest, when))
 
-    for t, (start, reset, wish, load, ready, regin) in enumerate(plan['cycles']):
+    def begin(self, t):
+        s, st = self.s, self.st
+        start, reset, wish, load, ready, regin = self.plan['cycles'][t]
         pre_tvalid, pre_sent, active = st.tvalid.get(), s['sent'].get(), s['active'].get()
-        if active != m_active:
-            ctx = 'power_up' if t == 0 else _ctx(**dict(zip(('start', 'reset', 'done'), applied[t - 1][:3])))
-            raise Bad('active_shadow', dict(expected=m_active, observed=active, ctx=ctx), t, m_active, active,
-                      'active=%d, shadow says %d (inputs of the deciding cycle: %s)' % (active, m_active, ctx))
-        done = int(bool(wish) and completed > 0 and not pre_tvalid)
-        applied.append([start, reset, done, load, ready, regin])
+        if active != self.m_active:
+            ctx = 'power_up' if t == 0 else _ctx(**dict(zip(('start', 'reset', 'done'), self.applied[t - 1][:3])))
+            raise Bad('active_shadow', dict(expected=self.m_active, observed=active, ctx=ctx), t, self.m_active, active,
+                      'active=%d, shadow says %d (inputs of the deciding cycle: %s)' % (active, self.m_active, ctx))
+        done = int(bool(wish) and self.completed > 0 and not pre_tvalid)
+        self.applied.append([start, reset, done, load, ready, regin])
         s['start'].put(start); s['reset'].put(reset); s['done'].put(done); s['load'].put(load)
         s['reg_in'].put(regin); st.tready.put(ready)
-        sim.propagateAll()
-        comb(t, 'before the edge')
+        self.cur = (pre_tvalid, pre_sent)
+
+    def mid(self, t):
+        self.comb('before the edge')
+
+    def observe(self):
+        self.ev['listener_observations'] += 1
+        self.comb('listener')
+
+    def step(self, t):
+        ev, m_active = self.ev, self.m_active
+        start, reset, done, load, ready, regin = self.applied[t]
+        pre_tvalid, pre_sent = self.cur
         peer_accept = bool(pre_tvalid and ready)
         accept = bool(peer_accept and m_active)
         load_eff = bool(load and m_active)
@@ -281,14 +350,21 @@ def run_reg2axi(plan, ev):
         ev['reset_while_tvalid'] += bool(reset and pre_tvalid)
         ev['done_while_active'] += bool(done and m_active)
         ev['done_granted'] += done
-        ev['done_refused'] += bool(wish and not done)
+        ev['done_refused'] += bool(self.plan['cycles'][t][2] and not done)
         ev['load_and_done_same_cycle'] += bool(load_eff and done)
         ev['restart'] += bool(start and not m_active)
-        ev['back_to_back_accepts'] += bool(peer_accept and prev_accept)
-        prev_accept = peer_accept
+        ev['back_to_back_accepts'] += bool(peer_accept and self.prev_accept)
+        self.prev_accept = peer_accept
         if load_eff:
-            latest = regin & mW
-        sim.clk(1)
+            self.latest = regin & self.mW
+        self.acc = (peer_accept, accept)
+        self.t = t + 1
+
+    def end(self, t):
+        ev, s, st, m_active = self.ev, self.s, self.st, self.m_active
+        start, reset, done, load, ready, regin = self.applied[t]
+        pre_tvalid, pre_sent = self.cur
+        peer_accept, accept = self.acc
         post_tvalid, post_sent = st.tvalid.get(), s['sent'].get()
         ctx = _ctx(start=start, reset=reset, done=done, load=load, ready=ready, active=m_active)
         # VALID, once raised, stays until the cycle a beat is accepted or the adapter is reset
@@ -298,7 +374,7 @@ def run_reg2axi(plan, ev):
                 raise Bad('valid_dropped', dict(ctx=ctx), t, 1, 0, 'tvalid fell without acceptance or reset (cycle inputs: %s)' % ctx)
         if post_tvalid and not pre_tvalid:
             ev['valid_rises'] += 1
-        comb(t, 'after the edge')
+        self.comb('after the edge')
         if post_sent and not pre_sent:
             ev['sent_rises'] += 1
             if not accept:
@@ -309,18 +385,131 @@ def run_reg2axi(plan, ev):
             if not (reset or done or (start and not m_active)):
                 raise Bad('sent_fell', dict(ctx=ctx), t, 1, 0, 'sent fell without reset, done or restart (%s)' % ctx)
         if accept:
-            completed += 1
+            self.completed += 1
         if start or reset:
-            completed = 0
+            self.completed = 0
         if reset or done:
-            m_active = 0
+            self.m_active = 0
         elif start:
-            m_active = 1
-    return applied
+            self.m_active = 1
 
 
-def run_plan(plan, ev):
-    return (run_axi2reg if plan['dut'] == 'axi2reg' else run_reg2axi)(plan, ev)
+# --------------------------------------------------------------------------- who drives, who looks
+
+class _Passive:
+    """Simulator listener that only looks: the per-cycle clauses applied to what a listener sees at the end of every cycle."""
+
+    def __init__(self, mon):
+        self.mon = mon
+
+    def simulatorUpdated(self):
+        self.mon.observe()
+
+
+class _Driving:
+    """Simulator listener that is the whole bench: judges the cycle that just ended, pokes the next inputs, propagates them."""
+
+    def __init__(self, mon, n):
+        self.mon, self.n, self.k = mon, n, 0
+
+    def simulatorUpdated(self):
+        mon, t = self.mon, self.k
+        mon.ev['listener_observations'] += 1
+        mon.end(t)
+        self.k = t + 1
+        if t + 1 < self.n:
+            mon.begin(t + 1)
+            mon.sim.propagateAll()
+            mon.mid(t + 1)
+            mon.step(t + 1)
+
+
+def _monitor(plan, ev):
+    return (A2R if plan['dut'] == 'axi2reg' else R2A)(plan, ev)
+
+
+def drive_bench(mon):
+    """Test-bench style: poke, propagate, look, clk(1), look -- plus a passive listener."""
+    mon.sim.addListener(_Passive(mon))
+    for t in range(len(mon.plan['cycles'])):
+        mon.begin(t)
+        mon.sim.propagateAll()
+        mon.mid(t)
+        mon.step(t)
+        mon.sim.clk(1)
+        mon.end(t)
+
+
+def drive_listener(mon):
+    """Everything happens from a Simulator listener inside clk(n) calls with n > 1 (plan['chunks'])."""
+    n = len(mon.plan['cycles'])
+    if not n:
+        return
+    mon.sim.addListener(_Driving(mon, n))
+    mon.begin(0)
+    mon.sim.propagateAll()
+    mon.mid(0)
+    mon.step(0)
+    for c in mon.plan['chunks']:
+        mon.ev['clk_calls_longer_than_one_cycle'] += c > 1
+        mon.sim.clk(c)
+
+
+_PERMS = {2: [(0, 1), (1, 0)], 3: [(0, 1, 2), (0, 2, 1), (1, 0, 2), (1, 2, 0), (2, 0, 1), (2, 1, 0)]}
+
+
+def drive_lockstep(mons, orders):
+    """Several HWSystems alive at once: the inputs of all of them are applied first, then every simulator is clocked once
+    (no explicit propagateAll; clk() is documented to evaluate the combinational logic itself), in a per-cycle order."""
+    n = min(len(m.plan['cycles']) for m in mons)
+    k = len(mons)
+    for m in mons:
+        m.sim.addListener(_Passive(m))
+    for t in range(n):
+        for i, m in enumerate(mons):
+            try:
+                m.begin(t)
+            except Bad as b:
+                b.sysidx = i
+                raise
+        if orders == 'same':
+            order = range(k)
+        elif orders == 'reverse':
+            order = range(k - 1, -1, -1)
+        elif orders == 'rotate':
+            order = [(i + t) % k for i in range(k)]
+        else:
+            order = _PERMS[k][orders[t] % len(_PERMS[k])]
+        for i in order:
+            m = mons[i]
+            try:
+                m.step(t)
+                m.sim.clk(1)
+                m.end(t)
+            except Bad as b:
+                b.sysidx = i
+                raise
+
+
+def run_plan(plan, evs):
+    """Runs a single-adapter plan or a lockstep composition.  evs: list that receives one Ev per system.
+    Returns the monitors; a Bad raised on the way carries .sysidx (which system of a composition)."""
+    if 'lockstep' in plan:
+        mons = []
+        for sub in plan['lockstep']:
+            ev = Ev()
+            evs.append(ev)
+            mons.append(_monitor(sub, ev))
+        drive_lockstep(mons, plan['orders'])
+        return mons
+    ev = Ev()
+    evs.append(ev)
+    mon = _monitor(plan, ev)
+    if plan.get('drive') == 'listener':
+        drive_listener(mon)
+    else:
+        drive_bench(mon)
+    return [mon]
 
 
 class Ev(dict):
@@ -350,6 +539,7 @@ def run_check(run, tier, seed, shard):
         for dut in ('axi2reg', 'reg2axi'):
             for slot in range(3):
                 jobs.append((k, dut, slot))
+        jobs.append((k, 'lockstep', 0))
     if shard is not None:
         jobs = [j for i, j in enumerate(jobs) if i % shard[1] == shard[0]]
     deadline = time.time() + (400 if tier == 'quick' else 2400)
@@ -361,43 +551,60 @@ def run_check(run, tier, seed, shard):
             run.inconclusive.append('watchdog: %d of %d schedules not run' % (len(jobs) - done_jobs, len(jobs)))
             break
         rnd = rng(seed, 'C16', k, dut, slot)
-        W = WIDTHS[(k * 3 + slot) % len(WIDTHS)]
         ncyc = 200 if tier == 'quick' else rnd.choice([400, 1000])
-        plan = gen_schedule(rnd, dut, W, ncyc)
-        ev = Ev()
+        if dut == 'lockstep':
+            plan = gen_lockstep(rnd, ncyc)
+            subs = plan['lockstep']
+        else:
+            plan = gen_schedule(rnd, dut, WIDTHS[(k * 3 + slot) % len(WIDTHS)], ncyc)
+            subs = [plan]
+        evs = []
         try:
             with muted():
-                applied = run_plan(plan, ev)
+                mons = run_plan(plan, evs)
         except Bad as b:
-            run.ev(ev['cycles'])
-            key = '%s_%s' % (dut, b.clause)
-            run.violation(key, dict(b.fields, dut=dut, clause=b.clause), dict(plan=plan, t=b.t), expected=b.expected, observed=b.observed,
-                          what='%s W=%d dw=%d cycle %d: %s' % (dut, W, plan['dw'], b.t, b.what))
+            run.ev(sum(e['cycles'] for e in evs))
+            sub = subs[getattr(b, 'sysidx', 0)]
+            key = '%s_%s' % (sub['dut'], b.clause)
+            run.violation(key, dict(b.fields, dut=sub['dut'], clause=b.clause, drive=sub['drive']),
+                          dict(plan=plan, t=b.t, system=getattr(b, 'sysidx', 0)), expected=b.expected, observed=b.observed,
+                          what='%s W=%d dw=%d drive=%s cycle %d: %s' % (sub['dut'], sub['W'], sub['dw'], sub['drive'], b.t, b.what))
             done_jobs += 1
             if run.too_many:
                 break
             continue
         done_jobs += 1
-        run.ev(ev['cycles'])
-        run.count('schedules_' + dut)
-        if plan.get('hist'):
-            run.count('schedules_adapter_added_to_running_system')
-            run.count('schedules_adapter_added_at_depth_%d' % plan['hist']['depth'])
-        per_w['%s_W%d_dw%d' % (dut, W, plan['dw'])] = per_w.get('%s_W%d_dw%d' % (dut, W, plan['dw']), 0) + 1
-        for a, v in ev.items():
-            if not a.startswith('ctx_'):
-                tot[dut][a] += int(v)
-        if _is_nontrivial(dut, ev):
+        if dut == 'lockstep':
+            run.count('compositions_lockstep')
+            run.count('compositions_lockstep_%d_systems' % len(subs))
+            run.count('compositions_order_%s' % (plan['orders'] if isinstance(plan['orders'], str) else 'random'))
+        for sub, ev in zip(subs, evs):
+            d_ = sub['dut']
+            run.ev(ev['cycles'])
+            run.count('schedules_' + d_)
+            run.count('schedules_drive_' + sub['drive'])
+            if sub.get('hist'):
+                run.count('schedules_adapter_added_to_running_system')
+                run.count('schedules_adapter_added_at_depth_%d' % sub['hist']['depth'])
+            cfg = '%s_W%d_dw%d' % (d_, sub['W'], sub['dw'])
+            per_w[cfg] = per_w.get(cfg, 0) + 1
+            for a, v in ev.items():
+                if not a.startswith('ctx_'):
+                    tot[d_][a] += int(v)
+        if all(_is_nontrivial(sub['dut'], ev) for sub, ev in zip(subs, evs)):
             run.nt(stable_hash(plan))
         if k % 100 == 0 and slot == 0:
-            run.sample(dict(dut=dut, W=W, dw=plan['dw'], first_cycles_start_reset_done_load_hs_data=applied[:16],
-                            observed={a: int(v) for a, v in ev.items() if not a.startswith('ctx_')}))
+            run.sample(dict(systems=[dict(dut=sub['dut'], W=sub['W'], dw=sub['dw'], drive=sub['drive'], hist=sub.get('hist'),
+                                          first_cycles_start_reset_done_load_hs_data=m.applied[:12],
+                                          observed={a: int(v) for a, v in ev.items() if not a.startswith('ctx_')})
+                                     for sub, ev, m in zip(subs, evs, mons)], orders=plan.get('orders') if isinstance(plan.get('orders'), str) else 'per-cycle list'))
     run.extra['axi2reg_events'] = dict(tot['axi2reg'])
     run.extra['reg2axi_events'] = dict(tot['reg2axi'])
     run.extra['schedules_per_configuration'] = per_w
     run.extra['peer_accepts_while_inactive'] = int(tot['reg2axi']['peer_accepts_while_inactive'])
-    if shard is None and not run.violations and not run.counters.get('schedules_adapter_added_to_running_system'):
-        run.inconclusive.append('no schedule with the adapter added to a running system')
+    for need in ('schedules_adapter_added_to_running_system', 'schedules_drive_listener', 'compositions_lockstep'):
+        if shard is None and not run.violations and not run.counters.get(need):
+            run.inconclusive.append('no run of the class %s' % need)
     if shard is None and not run.violations:
         need = {'axi2reg': ('beats', 'beat_and_clear_same_cycle', 'reset_while_active', 'done_while_active', 'restart', 'back_to_back_beats'),
                 'reg2axi': ('beats_accepted', 'valid_hold_checked', 'load_while_pending', 'sent_rises', 'sent_falls', 'reset_while_tvalid',
@@ -409,8 +616,9 @@ def run_check(run, tier, seed, shard):
 
 
 def post_merge(run, tier, seed):
-    if not run.violations and not run.counters.get('schedules_adapter_added_to_running_system'):
-        run.inconclusive.append('no schedule with the adapter added to a running system')
+    for need in ('schedules_adapter_added_to_running_system', 'schedules_drive_listener', 'compositions_lockstep'):
+        if not run.violations and not run.counters.get(need):
+            run.inconclusive.append('no run of the class %s' % need)
     for dut, keys in (('axi2reg_events', ('beats', 'beat_and_clear_same_cycle')), ('reg2axi_events', ('beats_accepted', 'valid_hold_checked', 'sent_rises'))):
         for a in keys:
             if not run.violations and not run.extra.get(dut, {}).get(a):
@@ -429,17 +637,18 @@ def _unhex(x):
 
 def replay(run, case):
     plan = _unhex(case['case']['plan'])
-    ev = Ev()
+    evs = []
     try:
         with muted():
-            run_plan(plan, ev)
+            run_plan(plan, evs)
     except Bad as b:
-        print('replay: %s W=%d dw=%d cycle %d clause %s: %s' % (plan['dut'], plan['W'], plan['dw'], b.t, b.clause, b.what))
+        plan = plan['lockstep'][getattr(b, 'sysidx', 0)] if 'lockstep' in plan else plan
+        print('replay: %s W=%d dw=%d drive=%s cycle %d clause %s: %s' % (plan['dut'], plan['W'], plan['dw'], plan.get('drive'), b.t, b.clause, b.what))
         lo = max(0, b.t - 6)
         for t in range(lo, min(len(plan['cycles']), b.t + 1)):
             print('  cycle %d start,reset,done_wish,load,valid/ready,data = %s' % (t, plan['cycles'][t]))
         print('  expected', b.expected, 'observed', b.observed)
         print('VIOLATION property=C16 replay=replayed key=%s_%s' % (plan['dut'], b.clause))
         return 1
-    print('replay: %d cycles, no clause violated' % ev['cycles'])
+    print('replay: %d cycles, no clause violated' % sum(e['cycles'] for e in evs))
     return 0
